@@ -136,7 +136,7 @@ def main():
             fn, lab, props = f['obligation']
             if prop not in props: continue
             failed.append('%s:%s' % (u, lab))
-            hit = [k for k in kf if k.get('unit') == u and k.get('obligation') == lab and k.get('kind', f['msg']) in f['msg']]
+            hit = [k for k in kf if k.get('unit') == u and k.get('obligation') == lab and k.get('kind', f['msg']) in f['msg'] and ('site' not in k or k['site'] == f.get('site'))]
             if hit:
                 k = hit[0]; still = True
                 if k.get('input'):      # the finding is tied to a concrete input: it must still misbehave on the real library
@@ -217,7 +217,7 @@ def main():
             with open(rp, 'w') as fh:
                 fh.write('failed obligation: %s:%s\nproperty: %s\nverifier diagnostic: %s\n' % (u, lab, prop, f['msg']))
                 if u != 'kani':
-                    fh.write('assembled file: %s\nspans: %s\n' % (main_res[u]['path'], f['spans']))
+                    fh.write('assembled file: %s\nspans: %s\nsite: %s\n' % (main_res[u]['path'], f['spans'], f.get('site')))
                 if w and w.get('args'):
                     fh.write('concrete input (vx-replay arguments): %s\n--- the real library on that input ---\n%s\n' % (' '.join(shlex.quote(x) for x in w['args']), w['output']))
                 else:
